@@ -16,6 +16,7 @@ import (
 
 type CompactionWorker struct {
 	bs      store.BadgerStore
+	dsm     *server.DsManager
 	logger  *zap.SugaredLogger
 	running bool
 }
@@ -24,6 +25,7 @@ func NewCompactor(store *server.Store, dsm *server.DsManager, logger *zap.Sugare
 	bs := server.NewBadgerAccess(store, dsm)
 	return &CompactionWorker{
 		bs:     bs,
+		dsm:    dsm,
 		logger: logger.Named("compaction-worker"),
 	}
 }
@@ -52,6 +54,10 @@ func (c *CompactionWorker) compact(datasetID string, strategy CompactionStrategy
 	if !b {
 		return fmt.Errorf("dataset %s not found", datasetID)
 	}
+	ds := c.dsm.GetDataset(datasetID)
+	if ds == nil {
+		return fmt.Errorf("dataset %s not found", datasetID)
+	}
 	txn := c.bs.GetDB().NewTransaction(false)
 	defer txn.Discard()
 
@@ -74,7 +80,7 @@ func (c *CompactionWorker) compact(datasetID string, strategy CompactionStrategy
 		internalEntityID := types.InternalID(binary.BigEndian.Uint64(latestKey[6:14]))
 
 		// 2. for each entity id, go through change versions in given dataset (chronologically)
-		err := c.forEntity(dsId, internalEntityID, txn, strategy, ops)
+		err := c.forEntity(ds, dsId, internalEntityID, txn, strategy, ops)
 		if err != nil {
 			return err
 		}
@@ -86,7 +92,7 @@ func (c *CompactionWorker) compact(datasetID string, strategy CompactionStrategy
 		}
 
 	}
-	_, err := flushDeletes(c.bs, ops, true, strategy)
+	_, err := flushDeletes(c.bs, ds, ops, true, strategy)
 	if err != nil {
 		return err
 	}
@@ -94,7 +100,7 @@ func (c *CompactionWorker) compact(datasetID string, strategy CompactionStrategy
 	return nil
 }
 
-func (c *CompactionWorker) forEntity(dsId types.InternalDatasetID, internalEntityID types.InternalID, txn *badger.Txn,
+func (c *CompactionWorker) forEntity(ds *server.Dataset, dsId types.InternalDatasetID, internalEntityID types.InternalID, txn *badger.Txn,
 	strategy CompactionStrategy, ops *compactionInstruction,
 ) error {
 	entityLocatorPrefixBuffer := store.SeekEntityChanges(dsId, internalEntityID)
@@ -119,7 +125,7 @@ func (c *CompactionWorker) forEntity(dsId types.InternalDatasetID, internalEntit
 		}
 		ops.append(instr)
 
-		reset, err4 := flushDeletes(c.bs, ops, false, strategy)
+		reset, err4 := flushDeletes(c.bs, ds, ops, false, strategy)
 		if reset {
 			ops.reset()
 		}
@@ -154,18 +160,23 @@ func (c *CompactionWorker) forEntity(dsId types.InternalDatasetID, internalEntit
 }
 
 // for efficiency, we flush deletes in batches
-func flushDeletes(bs store.BadgerStore, ops *compactionInstruction, finalFlush bool, strategy CompactionStrategy) (bool, error) {
+func flushDeletes(bs store.BadgerStore, ds *server.Dataset, ops *compactionInstruction, finalFlush bool, strategy CompactionStrategy) (bool, error) {
 	verifhook.Point("compact.beforeFlush")
 	if !finalFlush && len(ops.DeleteKeys) < strategy.flushThreshold() {
 		return false, nil
 	}
+	// writers read and replace the latest pointers of the dataset under this lock
+	ds.WriteLock.Lock()
+	defer ds.WriteLock.Unlock()
 	err := bs.GetDB().Update(func(txn *badger.Txn) error {
 		bufferedKeys, err := strategy.flush(txn)
 		if err != nil {
 			return err
 		}
 		all := append(ops.DeleteKeys, bufferedKeys...)
+		deleted := make(map[string]struct{}, len(all))
 		for _, key := range all {
+			deleted[string(key)] = struct{}{}
 			_, testErr := txn.Get(key)
 			if testErr != nil {
 				// if dataset was compacted before using dedup strat, we may have already deleted ref keys
@@ -181,7 +192,20 @@ func flushDeletes(bs store.BadgerStore, ops *compactionInstruction, finalFlush b
 		}
 		// fmt.Println("deleted", len(all), "keys")
 		for i, key := range ops.RewriteKeys {
-			err2 := txn.Set(key, ops.RewriteValues[i])
+			// the instructions come from the snapshot taken when compaction started. if a newer version
+			// was stored since then, the latest pointer names that version and has to stay
+			item, err2 := txn.Get(key)
+			if err2 != nil {
+				return err2
+			}
+			current, err2 := item.ValueCopy(nil)
+			if err2 != nil {
+				return err2
+			}
+			if _, ok := deleted[string(current)]; !ok {
+				continue
+			}
+			err2 = txn.Set(key, ops.RewriteValues[i])
 			if err2 != nil {
 				return err2
 			}
